@@ -3,18 +3,24 @@ from . import lib, walkcommon as W
 
 META = {
     'level': 'proof',
-    'technique': 'Lean 4 invariants over all trees/fault plans/cancellation points (inode bound, size bound, cancelled walk) + correspondence at limit-1, limit, limit+1 and every cancel point',
+    'technique': 'Lean 4: invariants over all trees/fault plans/cancellation points (inode bound, size bound, cancelled walk) and a refinement of the walk engine to a sequential machine over the '
+                 'specification\'s trace of handleFile calls (run_trace), from which the exact inode-limit and cancellation behaviour follow; correspondence at limit-1, limit, limit+1 and every cancel point',
     'design_ref': 'DESIGN.md §5 C10',
     'text': 'Kernel-checked for every forest, fault plan, option set and cancellation point: at most MaxInodes inodes are processed over the whole scan; no Extract call ever '
             'receives a file above MaxFileSize (a file of exactly the limit is extracted); once cancelled a walk step starts no extraction and returns an error, and the attempts '
-            'made after a cancellation from inside Extract all concern the file being handled. The image-layer byte limit is checked through the C04 image stream.',
-    'note': 'Trusted as in C01. "fails when the tree holds more inodes" and "reports failure whenever work remained" are checked end to end by the correspondence '
-            '(err class and AfterInodeVisited count at n-1, n, n+1; cancellation inside the 1st-5th Extract and before the scan), not as separate theorems. standalone.Run / detector.Run '
-            'cancellation: see C20 (C20_once_prefix).',
+            'made after a cancellation from inside Extract all concern the file being handled. Exact behaviour (errors not fatal, extractors do not panic): with an inode limit the scan fails '
+            'with the MaxInodes error exactly when the forest holds more inodes to visit than the limit (visitsScan, defined on trees and fault plans only) and reports min(visitsScan, MaxInodes) '
+            'visited inodes (C10_inodes_exact); cancelled from inside the k-th Extract it makes exactly the attempts of the handleFile calls up to and including the one holding that Extract '
+            '(the remaining extractors of that file still run), nothing afterwards, and fails with the context error iff a handleFile call remained (C10_cancel_trace, C10_cancel_outcome, '
+            'C10_cancel_prefix: the attempts made are a prefix of mustExtract and the scan fails whenever an owed attempt was not made). The image-layer byte limit is checked through the C04 image stream.',
+    'note': 'Trusted as in C01. "fails when the tree holds more inodes" and "reports failure whenever work remained" are theorems (via run_trace: model A = sequential machine over the '
+            'specification trace for every limit and cancellation point) AND are checked end to end: under the theorems\' hypotheses the implementation\'s err / visited count / Extract calls must '
+            'equal the specification side (specvisits, cancelOutcome). Fatal-error configurations and panicking extractors are outside the two exact theorems (covered by the invariants and the '
+            'correspondence). standalone.Run / detector.Run cancellation: see C20 (C20_once_prefix).',
 }
 THEOREMS = ['Scalibr.Walk.C10_inodes', 'Scalibr.Walk.C10_size', 'Scalibr.Walk.C10_cancel_walk', 'Scalibr.Walk.C10_cancel_same_file',
             'Scalibr.Walk.C10_cancel_before', 'Scalibr.Walk.walkNode_inv', 'Scalibr.Walk.runRoots_visited', 'Scalibr.Walk.runRoots_sizeInv',
-            'Scalibr.Walk.C10_inodes_exact', 'Scalibr.Walk.C10_cancel_trace', 'Scalibr.Walk.C10_cancel_prefix', 'Scalibr.Walk.run_trace']
+            'Scalibr.Walk.C10_inodes_exact', 'Scalibr.Walk.C10_cancel_trace', 'Scalibr.Walk.C10_cancel_prefix', 'Scalibr.Walk.C10_cancel_outcome', 'Scalibr.Walk.run_trace']
 
 
 def run(ctx):
@@ -41,6 +47,14 @@ def run(ctx):
             if fi.get('err') != want_err or fi.get('vis') != want_vis:
                 return 'MaxInodes=%d and the scan has %d inodes to visit: expected err=%s vis=%s, the scan reported err=%s vis=%s' % (
                     mi, sv, want_err, want_vis, fi.get('err'), fi.get('vis'))
+        if fm.get('cancelhyp') == '1' and 'cspecerr' in fm:
+            # theorem C10_cancel_outcome (hypothesis CancelCfg): every handleFile call up to and including the one holding the
+            # k-th Extract is made in full, nothing after it; the scan fails (context error) iff a call remained
+            want = (fm['cspecerr'], fm.get('cspecvis'), fm.get('cspeccalls'))
+            got = (fi.get('err'), fi.get('vis'), fi.get('calls'))
+            if got != want:
+                return 'context cancelled inside Extract #%d: expected err=%s vis=%s calls=%s, the scan reported err=%s vis=%s calls=%s' % (
+                    (ca,) + want + got)
         calls = W.fl(fi.get('calls'))
         if mx > 0:
             for cl in calls:
